@@ -121,6 +121,16 @@ CHECKS = {
    design_ref='5 (C14)',
    note=TB + ' Byte-level syntax of the info line is outside (format template only). Depth-reporting counterexamples are replayed on the real binary (`go depth 3`).',
    technique='symbolic execution of rustc MIR into z3; iteration contract; arbitrary finite-map model of the transposition table; replay on the real binary'),
+ 'C16': dict(
+   category='other',
+   text=('(a) The clock is the only environment input of a search; the real limits_exceeded, executed from MIR on an arbitrary search state with arbitrary depth/node limits and no time-based limit '
+         '(bench / fixed-depth configuration), is shown by z3 not to depend on it (result and side effects; two-run query), and log_uci_info is read-only. '
+         '(b) bench::bench executed from MIR with from_fen/search summarised: all 62 positions get a fresh Search::new(&board, None), a fixed depth, an empty cache, and the cache is cleared after each. '
+         '(c) a syntactic scan of the MIR call graph reachable from Search::search and bench finds no hash-container iteration, RandomState, rand, thread, env, system time or pointer formatting, '
+         'and clock reads only in limits_exceeded, iter_deep, bench. (c) is not a solver verdict and is labelled so.'),
+   design_ref='5 (C16)',
+   note=TB + ' Separate processes and machine load are outside; a whole-search two-run query with the cache active gave no verdict and is not part of the claim.',
+   technique='symbolic execution of rustc MIR into z3 (two-run clock-independence query, bench loop structure) + syntactic call-graph scan of the MIR'),
 }
 NA = {
  'C10': 'quantifies over OS-thread interleavings (relaxed AtomicBool + JoinHandle::is_finished); MIR has no thread semantics and Kani does not model concurrency - outside solver-based checking of the real code (DESIGN.md 6)',
